@@ -1,5 +1,6 @@
 import ScVerif.C16.EqualMain
 import ScVerif.C16.UnknownLemmas
+import ScVerif.C16.WireLemmas
 /-!
 # C16 — property theorems, part 2: the default comparer and protobuf equality
 
@@ -40,15 +41,53 @@ theorem C16_unknown_fields (x y : Unk)
 
 /-- The hypothesis is satisfiable on a non-trivial pair (records of two numbers in different order: the
 bytes differ, so the shortcut does not fire, and the groups agree). -/
-example : (unkBytes [(1000, "c03e01"), (1001, "c83e02")] = unkBytes [(1001, "c83e02"), (1000, "c03e01")] →
-    ∀ n, unkGroup n [(1000, "c03e01"), (1001, "c83e02")] = unkGroup n [(1001, "c83e02"), (1000, "c03e01")]) := by
+example : (unkBytes [(1000, [0xc0, 0x3e, 1]), (1001, [0xc8, 0x3e, 2])] =
+      unkBytes [(1001, [0xc8, 0x3e, 2]), (1000, [0xc0, 0x3e, 1])] →
+    ∀ n, unkGroup n [(1000, [0xc0, 0x3e, 1]), (1001, [0xc8, 0x3e, 2])] =
+      unkGroup n [(1001, [0xc8, 0x3e, 2]), (1000, [0xc0, 0x3e, 1])]) := by
   intro h
   simp [unkBytes, recBytes] at h
+
+/-- Unknown fields from the RAW bytes, no hypothesis about parsing: for all byte strings `bx`, `by_` that
+the model of `protowire.ConsumeField` cuts into records `rx`, `ry` (as the Go loop does), `equalUnknown` on the
+raw bytes — length test, `bytes.Equal` shortcut, the two per-number maps filled by appending every record,
+`reflect.DeepEqual` — answers exactly "for every field number the same bytes, all occurrences in order"; the
+records put together are the raw bytes again, and the key-set half of DeepEqual and the length test are
+redundant.  (This is also the rule of proto.Equal in the pinned protobuf version.) -/
+theorem C16_unknown_fields_wire (bx by_ : Bytes) (rx ry : Unk)
+    (hx : wireRecords bx = some rx) (hy : wireRecords by_ = some ry) :
+    (eqUnknownRaw bx by_ = some true ↔ ∀ n, unkGroup n rx = unkGroup n ry) ∧
+    eqUnknownRaw bx by_ = some (eqUnknown rx ry) ∧ unkBytes rx = bx ∧ unkBytes ry = by_ := by
+  have hbx := (wireRecords_spec bx rx hx).1
+  have hby := (wireRecords_spec by_ ry hy).1
+  have heq := eqUnknownRaw_eq bx by_ rx ry hx hy
+  refine ⟨?_, heq, hbx, hby⟩
+  rw [heq, Option.some.injEq]
+  apply eqUnknown_iff_groups
+  intro h
+  have : rx = ry := by
+    have e : bx = by_ := by rw [← hbx, ← hby, h]
+    subst e
+    rw [hx] at hy
+    exact Option.some.inj hy
+  subst this
+  intro n; rfl
+
+/-- Non-vacuity: `#1000: 1, #1001: 9, #1000: 2` parses into three records; against `#1000: 3, …` (a
+difference in a NON-last occurrence of a repeated number, same total length) the answer is false. -/
+example : wireRecords [0xc0, 0x3e, 1, 0xc8, 0x3e, 9, 0xc0, 0x3e, 2] =
+    some [(1000, [0xc0, 0x3e, 1]), (1001, [0xc8, 0x3e, 9]), (1000, [0xc0, 0x3e, 2])] := by decide
+
+example : eqUnknownRaw [0xc0, 0x3e, 1, 0xc8, 0x3e, 9, 0xc0, 0x3e, 2] [0xc0, 0x3e, 3, 0xc0, 0x3e, 2, 0xc8, 0x3e, 9] =
+    some false := by decide
+
+example : eqUnknownRaw [0xc0, 0x3e, 1, 0xc8, 0x3e, 9, 0xc0, 0x3e, 2] [0xc0, 0x3e, 1, 0xc0, 0x3e, 2, 0xc8, 0x3e, 9] =
+    some true := by decide
 
 /-- Non-vacuity: well-formed arguments exist (a message with two fields, a map and unknown fields). -/
 example : TopWF (some (.msg "pkg.T" true
     (.cons ⟨1, "a"⟩ (.one (.sc (.int 1)))
-      (.cons ⟨2, "m"⟩ (.map (.cons (.str "6b") (.sc (.float .nan)) .nil)) .nil)) [(1000, "c03e01")])) := by
+      (.cons ⟨2, "m"⟩ (.map (.cons (.str "6b") (.sc (.float .nan)) .nil)) .nil)) [(1000, [0xc0, 0x3e, 1])])) := by
   simp [TopWF, Val.WF, Fields.WF, FVal.WF, Entries.WF, Fields.keys, Entries.keys]
 
 /-- The exception at work: for any message type whose short name is `Change`, a message with
